@@ -18,6 +18,7 @@ import Anko.Model.PrecTable
 import Anko.Model.Scanner
 import Anko.Model.Chan
 import Anko.Model.Cont
+import Anko.Model.Conv
 
 open Anko
 
@@ -263,8 +264,66 @@ def handle (args : List Sexp) : String :=
 
 end ContDrv
 
+namespace ConvDrv
+open Anko.Conv
+
+partial def decTy : Sexp → Option Conv.Ty
+  | Sexp.atom "int64" => some .int64
+  | Sexp.atom "int32" => some .int32
+  | Sexp.atom "int8" => some .int8
+  | Sexp.atom "uint8" => some .uint8
+  | Sexp.atom "string" => some .string
+  | Sexp.atom "bool" => some .bool
+  | Sexp.atom "iface" => some .iface
+  | Sexp.list [Sexp.atom "slice", e] => (decTy e).map Conv.Ty.slice
+  | Sexp.list [Sexp.atom "map", k, v] => do pure (.map (← decTy k) (← decTy v))
+  | _ => none
+
+partial def decTV : Sexp → Option TV
+  | Sexp.atom "nil" => some .nilIface
+  | Sexp.list [Sexp.atom "int", t, Sexp.atom n] => do pure (.int (← decTy t) (← n.toInt?))
+  | Sexp.list [Sexp.atom "str"] => some (.str [])
+  | Sexp.list [Sexp.atom "str", Sexp.atom h] => (Sexp.unhexBytes h.toList).map (fun bs => TV.str (bs.map (·.toNat)))
+  | Sexp.list [Sexp.atom "bool", Sexp.atom x] => some (.bool (x == "1"))
+  | Sexp.list (Sexp.atom "slice" :: t :: xs) => do pure (.slice (← decTy t) (TVs.ofList (← xs.mapM decTV)))
+  | Sexp.list (Sexp.atom "map" :: k :: v :: kvs) => do
+    let ps ← kvs.mapM (fun kv => match kv with
+      | Sexp.list [a, b] => do pure ((← decTV a), (← decTV b))
+      | _ => none)
+    pure (.map (← decTy k) (← decTy v) (TVs.ofList (ps.map (·.1))) (TVs.ofList (ps.map (·.2))))
+  | _ => none
+
+def showTy : Conv.Ty → String
+  | .int64 => "int64" | .int32 => "int32" | .int8 => "int8" | .uint8 => "uint8"
+  | .string => "string" | .bool => "bool" | .iface => "iface"
+  | .slice e => "[]" ++ showTy e
+  | .map k v => "map[" ++ showTy k ++ "]" ++ showTy v
+
+partial def showTV : TV → String
+  | .int t i => s!"{showTy t}:{i}"
+  | .str bs => "string:" ++ Sexp.hexBytes (bs.map (fun b => b.toUInt8))
+  | .bool b => if b then "bool:true" else "bool:false"
+  | .nilIface => "nil"
+  | .slice e xs => "[]" ++ showTy e ++ "[" ++ " ".intercalate (xs.toList.map showTV) ++ "]"
+  | .map k v ks vs =>
+    let ents := ((ks.toList.zip vs.toList).map (fun kv => showTV kv.1 ++ "=>" ++ showTV kv.2)).toArray.qsort (· < ·)
+    "map[" ++ showTy k ++ "]" ++ showTy v ++ "{" ++ " ".intercalate ents.toList ++ "}"
+
+def handle (args : List Sexp) : String :=
+  match args with
+  | [v, t] =>
+    (match decTV v, decTy t with
+     | some tv, some ty => (match convert tv ty with
+       | some w => "ok " ++ showTV w
+       | none => "err")
+     | _, _ => "bad-args")
+  | _ => "bad-args"
+
+end ConvDrv
+
 def handleOps (cmd : String) (args : List Sexp) : String :=
   match cmd, args with
+  | "conv", args => ConvDrv.handle args
   | "cont", args => ContDrv.handle args
   | "chanhist", args => handleChanHist args
   | "pipe", args => handlePipe args
